@@ -799,7 +799,7 @@ def c06(tier, seed):
 
 
 def c05(tier, seed):
-    return check_obs(tier) + import_obs() + search_obs() + writeback_obs() + filepost_obs() + [o for o in openmode_obs() if o.name in ('handle.read', 'handle.write', 'handle.utime', 'handle.create')] + scanalloc_obs() + links_obs()
+    return check_obs(tier) + import_obs() + search_obs() + writeback_obs() + filepost_obs() + [o for o in openmode_obs() if o.name in ('handle.read', 'handle.write', 'handle.utime', 'handle.create')] + scanalloc_obs() + links_obs() + blockruns_obs()
 
 
 def import_obs():
@@ -920,10 +920,11 @@ def frecord_obs():
 
 
 def blockruns_obs():
-    return [Ob('state.f_record.blockruns.roundtrip', 'harness/h_blockruns.c', 'h_blockruns', inject=[RUNS_WRITE, RUNS_READ], unwind=6, small_path=True, timeout=1200, mem=8, cost=10, kind='bounded',
-               bound='files of at most 2 blocks, hash size 4', replay=False,
+    return [Ob('state.f_record.blockruns.roundtrip' + sfx, 'harness/h_blockruns.c', 'h_blockruns', inject=[RUNS_WRITE, RUNS_READ], defs={'NBLK': nb, 'HS': hs}, unwind=6, unwindset=['memcmp.0:18', 'hash_is_zero.0:18', 'hash_is_invalid.0:18'], small_path=True, timeout=1200, mem=8, cost=10, kind='bounded',
+               bound='files of at most %d block(s), hash size %d' % (nb, hs), replay=False,
                functions=["state_write_content: region 'f' record block runs (cmdline/state.c, extracted mechanically)", "state_read_content: region 'f' record block runs (cmdline/state.c, extracted mechanically)"],
-               note='every state (BLK / CHG / REP), hash and parity position per block; sputc / sputb32 / swrite and sgetc / sgetb32 / sread connected through a recorded event stream')]
+               note='every state (BLK / CHG / REP), hash and parity position per block; load-time options clear_past_hash / --force-nocopy / --force-realloc; sputc / sputb32 / swrite and sgetc / sgetb32 / sread connected through a recorded event stream' + (' (full hash size: the ZERO / INVALID markers are recognisable)' if hs == 16 else ''))
+            for sfx, nb, hs in (('', 2, 4), ('.fullhash', 1, 16))]
 
 
 def c10(tier, seed):
@@ -1141,7 +1142,7 @@ def c16(tier, seed):
 
 
 def c04(tier, seed):
-    c15 = [o for o in PROPS['C15']['obligations'](tier, seed) if o.name in ('scrub.mark.region', 'scrub.classify.region', 'scrub.block_is_enabled', 'scrub.info_word')]
+    c15 = [o for o in PROPS['C15']['obligations'](tier, seed) if o.name in ('scrub.mark.region', 'scrub.classify.region', 'scrub.block_is_enabled', 'scrub.info_word', 'scrub.limits.region')]
     return [o for o in check_obs(tier) if o.name == 'check.blockcmp'] + sync_hash_obs() + c15 + [o for o in syncrd_obs() if o.name == 'scrub.data_reader'] + status_obs() + [o for o in openmode_obs() if o.name == 'handle.read'] + scrubpar_obs() + [o for o in writeback_obs() if o.name in ('check.repair_outcome.region', 'check.data_verify.region', 'check.block_is_enabled')]
 
 
